@@ -143,6 +143,8 @@ var (
 const (
 	csAddr  = "10.0.0.9:30252"
 	cs2Addr = "10.0.0.10:31000"
+	cs3Addr = "10.0.0.9:31001"  // same host as cs-1, other port
+	cs4Addr = "10.0.0.12:30252" // other host, same port as cs-1
 	dsAddr  = "10.0.0.11:30254"
 )
 
@@ -209,10 +211,10 @@ func (c caseCfg) topologyJSON() string {
     "br-2": {"internal_addr": %q, "interfaces": {
       "3": {"underlay": {%s"local": "192.168.3.1:50000", "remote": "192.168.3.2:50000"}, "isd_as": "1-ff00:0:112", "link_to": "CHILD", "mtu": 1472}}}
   },
-  "control_service": {"cs-1": {"addr": %q}, "cs-2": {"addr": %q}},
+  "control_service": {"cs-1": {"addr": %q}, "cs-2": {"addr": %q}, "cs-3": {"addr": %q}, "cs-4": {"addr": %q}},
   "discovery_service": {"ds-1": {"addr": %q}}
 }`, localIA, c.rangeString(), intAddr, prov("ext"), ext1Local, ext1Rem, ext2Local, ext2Rem, sibAddr, prov("hop"),
-		csAddr, cs2Addr, dsAddr)
+		csAddr, cs2Addr, cs3Addr, cs4Addr, dsAddr)
 }
 
 // production builds the router exactly as cmd/router does: LoadConfig from a directory,
@@ -310,7 +312,7 @@ func directSteps(c caseCfg, order []string, op *recOpener) (*router.Connector, e
 			for _, s := range []struct {
 				svc addr.SVC
 				a   string
-			}{{addr.SvcCS, csAddr}, {addr.SvcCS, cs2Addr}, {addr.SvcDS, dsAddr}} {
+			}{{addr.SvcCS, csAddr}, {addr.SvcCS, cs2Addr}, {addr.SvcCS, cs3Addr}, {addr.SvcCS, cs4Addr}, {addr.SvcDS, dsAddr}} {
 				ap := netip.MustParseAddrPort(s.a)
 				if e := dp.AddSvc(ia, s.svc, addr.HostIP(ap.Addr()), ap.Port()); e != nil {
 					err = e
@@ -480,9 +482,21 @@ func runSock(w *vt.Writer, rng *rand.Rand, n int) {
 // ------------------------------------------------------------------ C11
 
 type pkt struct {
-	kind  string // udp tcp echo-reply tr-reply echo-request tr-request err-udp err-echo err-tr other-l4
+	kind  string // udp tcp echo-reply tr-reply echo-request tr-request err-udp err-echo err-tr other-l4 err-cut err-tcp
 	field int    // the port / identifier the packet carries
-	dst   string // "ip" | "svc-cs" | "svc-ds" | "svc-cs-mcast"
+	dst   string // "ip" | "svc-cs" | "svc-ds" | "svc-cs-mcast" | "svc-wildcard"
+	cut   int    // err-cut: number of bytes of the quoted packet that are kept
+}
+
+// offset of the L4 header in the quoted packet: common header 12, address header 2*8+2*4, path
+// 4 (meta) + 8 (one info field) + 3*12 (hop fields)
+const quoteL4 = 12 + 24 + 4 + 8 + 36
+
+// quoteCuts lists the truncation points: inside and at the end of every layer of the quoted
+// packet, around the UDP source port and the UDP header.
+func quoteCuts() []int {
+	return []int{0, 1, 4, 12, 13, 36, 40, 48, quoteL4 - 1, quoteL4, quoteL4 + 1, quoteL4 + 2, quoteL4 + 3,
+		quoteL4 + 4, quoteL4 + 7, quoteL4 + 8, quoteL4 + 9}
 }
 
 func hostAddr() netip.Addr { return netip.MustParseAddr("10.0.100.100") }
@@ -512,6 +526,8 @@ func build(p pkt) []byte {
 		_ = spkt.SetDstAddr(addr.HostSVC(addr.SvcDS))
 	case "svc-cs-mcast":
 		_ = spkt.SetDstAddr(addr.HostSVC(addr.SvcCS.Multicast()))
+	case "svc-wildcard": // no instance registered
+		_ = spkt.SetDstAddr(addr.HostSVC(addr.SvcWildcard))
 	}
 	_ = spkt.SetSrcAddr(addr.HostIP(netip.MustParseAddr("172.16.4.4")))
 	f := uint16(p.field)
@@ -538,6 +554,13 @@ func build(p pkt) []byte {
 			l.SetNetworkLayerForChecksum(q)
 		}
 		return ser(append([]gopacket.SerializableLayer{q, inner}, more...)...)
+	}
+	quotedRaw := func(l4 slayers.L4ProtocolType, raw []byte) []byte {
+		q := &slayers.SCION{Version: 0, FlowID: 1, PathType: scion.PathType, DstIA: addr.MustParseIA("2-ff00:0:222"),
+			SrcIA: addr.MustParseIA(localIA), Path: dp, NextHdr: l4}
+		_ = q.SetDstAddr(addr.HostIP(netip.MustParseAddr("172.16.4.4")))
+		_ = q.SetSrcAddr(addr.HostIP(hostAddr()))
+		return ser(q, gopacket.Payload(raw))
 	}
 	scmp := func(t slayers.SCMPType, code slayers.SCMPCode) *slayers.SCMP {
 		s := &slayers.SCMP{TypeCode: slayers.CreateSCMPTypeCode(t, code)}
@@ -577,6 +600,23 @@ func build(p pkt) []byte {
 	case "err-udp":
 		spkt.NextHdr = slayers.L4SCMP
 		q := quoted(&slayers.UDP{SrcPort: f, DstPort: 443}, gopacket.Payload([]byte("offending")))
+		return ser(spkt, scmp(slayers.SCMPTypeDestinationUnreachable, slayers.SCMPCodeNoRoute),
+			&slayers.SCMPDestinationUnreachable{}, gopacket.Payload(q))
+	case "err-cut":
+		spkt.NextHdr = slayers.L4SCMP
+		q := quoted(&slayers.UDP{SrcPort: f, DstPort: 443}, gopacket.Payload([]byte("offending")))
+		if p.cut < len(q) {
+			q = q[:p.cut]
+		}
+		return ser(spkt, scmp(slayers.SCMPTypeDestinationUnreachable, slayers.SCMPCodeNoRoute),
+			&slayers.SCMPDestinationUnreachable{}, gopacket.Payload(q))
+	case "err-tcp":
+		spkt.NextHdr = slayers.L4SCMP
+		tcp := make([]byte, 24)
+		tcp[0], tcp[1] = byte(f>>8), byte(f) // source port of the offending TCP segment
+		tcp[2], tcp[3] = 0x01, 0xbb
+		tcp[12] = 0x50
+		q := quotedRaw(slayers.L4TCP, tcp)
 		return ser(spkt, scmp(slayers.SCMPTypeDestinationUnreachable, slayers.SCMPCodeNoRoute),
 			&slayers.SCMPDestinationUnreachable{}, gopacket.Payload(q))
 	case "err-echo":
@@ -642,7 +682,8 @@ func portsFor(c caseCfg, rng *rand.Rand, full bool) []int {
 	return out
 }
 
-var svcInst = map[string][]string{"svc-cs": {csAddr, cs2Addr}, "svc-ds": {dsAddr}, "svc-cs-mcast": {csAddr, cs2Addr}}
+var svcInst = map[string][]string{"svc-cs": {csAddr, cs2Addr, cs3Addr, cs4Addr}, "svc-ds": {dsAddr},
+	"svc-cs-mcast": {csAddr, cs2Addr, cs3Addr, cs4Addr}, "svc-wildcard": {}}
 
 func deliverAll(w *vt.Writer, rng *rand.Rand, dp *router.Connector, c caseCfg, full bool) int {
 	proc := router.VerifCfgNewProc(dp)
@@ -662,10 +703,21 @@ func deliverAll(w *vt.Writer, rng *rand.Rand, dp *router.Connector, c caseCfg, f
 			disp, egress, dst = proc.Deliver(raw, 1)
 		}()
 		if pan != "" {
-			w.Emit(vt.M{"ev": "panic", "kind": p.kind})
+			w.Emit(vt.M{"ev": "panic", "kind": p.kind, "cut": p.cut})
 			return
 		}
-		e := vt.M{"ev": "deliver", "kind": p.kind, "field": p.field, "dst": p.dst, "disp": []string{"discard", "forward", "slow", "done"}[disp],
+		kind := p.kind
+		if kind == "err-cut" { // abstraction: are the two bytes of the quoted source port there?
+			switch {
+			case p.cut < quoteL4+2:
+				kind = "err-cut-noport"
+			case p.cut < quoteL4+8:
+				kind = "err-cut-port"
+			default:
+				kind = "err-udp" // complete UDP header: the ordinary case
+			}
+		}
+		e := vt.M{"ev": "deliver", "kind": kind, "cut": p.cut, "field": p.field, "dst": p.dst, "disp": []string{"discard", "forward", "slow", "done"}[disp],
 			"egress": int(egress), "port": -1, "addr": "-", "want": hostAddr().String(), "inst": []string{}}
 		if p.dst != "ip" {
 			e["want"] = "-"
@@ -688,10 +740,28 @@ func deliverAll(w *vt.Writer, rng *rand.Rand, dp *router.Connector, c caseCfg, f
 			one(pkt{kind: k, field: f, dst: "ip"})
 		}
 	}
-	for _, d := range []string{"svc-cs", "svc-ds", "svc-cs-mcast"} {
-		for _, f := range []int{0, 30041, 31000, 443} {
+	for _, d := range []string{"svc-cs", "svc-ds", "svc-cs-mcast", "svc-wildcard"} {
+		fs := []int{0, 30041, 31000, 443}
+		if full { // the instance is chosen at random: many packets reach every registered instance
+			fs = append(fs, 30252, 31001, 1, 65535, 50002, 80, 1024, 40000)
+		}
+		for _, f := range fs {
 			one(pkt{kind: "udp", field: f, dst: d})
 		}
+	}
+	// SCMP errors whose quote is cut at every layer boundary of the offending packet (cut = number
+	// of quoted bytes kept), and an SCMP error quoting a TCP packet
+	if full {
+		for _, f := range []int{40001, 80} {
+			for _, cut := range quoteCuts() {
+				one(pkt{kind: "err-cut", field: f, dst: "ip", cut: cut})
+			}
+			one(pkt{kind: "err-tcp", field: f, dst: "ip"})
+		}
+	} else {
+		cuts := quoteCuts()
+		one(pkt{kind: "err-cut", field: 40001, dst: "ip", cut: cuts[rng.Intn(len(cuts))]})
+		one(pkt{kind: "err-tcp", field: 40001, dst: "ip"})
 	}
 	return n
 }
